@@ -43,12 +43,13 @@ theorem error_codes_match_source :
   refine ⟨rfl, rfl, rfl, ?_, ?_⟩ <;> intro rt h <;> cases h <;> decide
 
 /-- a situation the handler cannot serve is a handling error that can be
-rendered as a 4.xx/5.xx reply: coded errors are 4.00 or 5.00; the code-less
+rendered as a 4.xx/5.xx reply: coded errors are exactly 4.00 Bad Request or 5.00 Internal Server Error (never a 6.xx/7.xx byte); the code-less
 `not_handled` occurs only when no reply was prepared (nothing to render into) -/
 theorem errors_renderable (M : Nat) (req : Request) (st : BlockState) (c : Option ResponseType)
     (h : (coreRequest M req st).2.2 = .herr c ∨ (coreResponse M req st).2.2 = .herr c) :
     (c = none → req.response = none) ∧
-    (∀ rt, c = some rt → MessageClass.toU8 (.Response rt) ≥ 0x80) := by
+    (∀ rt, c = some rt → (rt = .InternalServerError ∨ rt = .BadRequest) ∧
+      (MessageClass.toU8 (.Response rt) = 0xA0 ∨ MessageClass.toU8 (.Response rt) = 0x80)) := by
   have key : (c = none → req.response = none) ∧
       (∀ rt, c = some rt → rt = .InternalServerError ∨ rt = .BadRequest) := by
     rcases h with h | h
@@ -56,6 +57,7 @@ theorem errors_renderable (M : Nat) (req : Request) (st : BlockState) (c : Optio
     · exact coreResponse_err M req st c h
   refine ⟨key.1, ?_⟩
   intro rt hrt
+  refine ⟨key.2 rt hrt, ?_⟩
   rcases key.2 rt hrt with h | h <;> subst h <;> decide
 
 /-- no single request makes the buffered upload for its resource grow by more
